@@ -217,6 +217,25 @@ struct t_record
     return type{label_i{} = x, label_u{} = y};
   }
 };
+// equivalent records whose labels are declared in a different order (same element types, so that a positional comparison
+// of the storage would type-check): == is label by label
+FCPPT_RECORD_MAKE_LABEL(label_a);
+FCPPT_RECORD_MAKE_LABEL(label_b);
+void record_permuted()
+{
+  using r_ab = fcppt::record::object<fcppt::record::element<label_a, int>, fcppt::record::element<label_b, int>>;
+  using r_ba = fcppt::record::object<fcppt::record::element<label_b, int>, fcppt::record::element<label_a, int>>;
+  int const a1{s32("a1")}, b1{s32("b1")}, a2{s32("a2")}, b2{s32("b2")};
+  r_ab const x{label_a{} = a1, label_b{} = b1};
+  r_ba const y{label_b{} = b2, label_a{} = a2};
+  r_ba const y2{label_a{} = a2, label_b{} = b2};
+  bool const same{a1 == a2 && b1 == b2};
+  verif_assert((x == y) == same, "record == compares label by label, whatever the declaration order");
+  verif_assert((y == x) == same, "record == is symmetric across declaration orders");
+  verif_assert((x != y) == !same, "record != is the negation of ==");
+  verif_assert(y == y2, "the order of the initialisers does not matter");
+  verif_reach("record-permuted-end");
+}
 struct st_tag {};
 struct t_strong
 {
@@ -468,6 +487,8 @@ H(h_cmp_dim, coherence<t_dim>()) H(h_cmp_matrix, coherence<t_matrix>()) H(h_cmp_
 H(h_cmp_bitfield, coherence<t_bitfield>()) H(h_cmp_enum_array, coherence<t_enum_array>()) H(h_cmp_reference, coherence<t_reference>())
 H(h_cmp_recursive, coherence<t_recursive>()) H(h_cmp_shared_ptr, coherence<t_shared_ptr>()) H(h_cmp_nested_eq, coherence<t_nested_eq>()) H(h_cmp_nested_ord, coherence<t_nested_ord>())
 H(h_cmp_grid, coherence<t_grid>()) H(h_cmp_tree, coherence<t_tree>()) H(h_cmp_raw_vector, coherence<t_raw_vector>())
+H(h_cmp_record_permuted, record_permuted())
+//@harness h_cmp_record_permuted tier=quick
 //@harness h_cmp_{T} for T in optional,either,variant,tuple,array,record,strong_typedef,vector,dim,matrix,box,sphere,bitfield,enum_array,reference,recursive,shared_ptr,nested_eq,nested_ord tier=quick loop=64
 //@harness h_cmp_{T} for T in grid,tree,raw_vector tier=thorough loop=64 wall=1500
 H(h_cmp_grid_shapes, coherence<t_grid_shapes>()) H(h_cmp_shared_alias, coherence<t_shared_alias>())
